@@ -368,3 +368,120 @@ def bool_table(test, atoms):
             return None
         table[combo] = val
     return variables, table
+
+
+# ----------------------------------------------------- linear averaging fields
+DET_TYPES = ['sidechain', 'backbone', 'coulomb']
+MEAN_FIELDS = {'pka_value', 'energy_volume', 'energy_local', 'buried', 'num_volume'}
+
+
+def _det_type_lists(func):
+    """Literal lists of the three determinant type names iterated in func."""
+    res = []
+    for node in walk_no_nested(func):
+        if isinstance(node, ast.For) and isinstance(node.iter, (ast.List, ast.Tuple)):
+            vals = [e.value for e in node.iter.elts if isinstance(e, ast.Constant)]
+            res.append((node, vals))
+        elif isinstance(node, ast.For) and isinstance(node.iter, ast.Name):
+            for s in walk_no_nested(func):
+                if isinstance(s, ast.Assign) and norm(s.targets[0]) == node.iter.id \
+                        and isinstance(s.value, (ast.List, ast.Tuple)):
+                    vals = [e.value for e in s.value.elts if isinstance(e, ast.Constant)]
+                    res.append((node, vals))
+    return res
+
+
+def check_linear_fields(ctx, rule, prog):
+    """C02.R3 / C08.R3: __iadd__ and __truediv__ act on the same field set,
+    which contains every reported mean field and not model_pka; clone copies
+    model_pka and leaves the accumulated fields at their initial zeros."""
+    mod = prog.mod('group')
+    iadd = mod.func('Group.__iadd__')
+    tdiv = mod.func('Group.__truediv__')
+    clone = mod.func('Group.clone')
+    init = mod.func('Group.__init__')
+    other = [a.arg for a in iadd.args.args][1]
+    summed = {}
+    for node in walk_no_nested(iadd):
+        if isinstance(node, ast.AugAssign) and isinstance(node.op, ast.Add) \
+                and isinstance(node.target, ast.Attribute) and norm(node.target.value) == 'self':
+            summed[node.target.attr] = node
+            ctx.ob(rule, 'iadd:same-field:' + node.target.attr,
+                   norm(node.value) == '%s.%s' % (other, node.target.attr),
+                   '__iadd__ adds other.%s to self.%s' % (node.target.attr, node.target.attr),
+                   mod, node)
+    divided = {}
+    val = [a.arg for a in tdiv.args.args][1]
+    for node in walk_no_nested(tdiv):
+        if isinstance(node, ast.AugAssign) and isinstance(node.op, ast.Div) \
+                and isinstance(node.target, ast.Attribute) and norm(node.target.value) == 'self':
+            divided[node.target.attr] = node
+            ctx.ob(rule, 'truediv:by-divisor:' + node.target.attr, norm(node.value) == val,
+                   '__truediv__ divides self.%s by the divisor' % node.target.attr, mod, node)
+    ctx.ob(rule, 'fields:sum==div', set(summed) == set(divided),
+           '__iadd__ and __truediv__ act on the same scalar fields (sum only: %s; divide only: %s)'
+           % (sorted(set(summed) - set(divided)), sorted(set(divided) - set(summed))), mod, tdiv)
+    ctx.ob(rule, 'fields:cover-reported-means', MEAN_FIELDS <= set(summed),
+           'the accumulated fields include every reported mean %s (missing %s)'
+           % (sorted(MEAN_FIELDS), sorted(MEAN_FIELDS - set(summed))), mod, iadd)
+    ctx.ob(rule, 'fields:model_pka-not-accumulated',
+           'model_pka' not in summed and 'model_pka' not in divided,
+           'model_pka is neither summed nor divided (it is copied by clone)', mod, iadd)
+    # determinants: all three types, via add_determinant / value division
+    for fn, what in ((iadd, 'summed'), (tdiv, 'divided')):
+        lists = _det_type_lists(fn)
+        ok = len(lists) == 1 and sorted(lists[0][1]) == sorted(DET_TYPES)
+        ctx.ob(rule, 'determinants:%s:all-three-types' % what, ok,
+               'determinants of all three types are %s (found %s)' % (what, [v for _n, v in lists]),
+               mod, lists[0][0] if lists else fn)
+    calls = [c for c in calls_in(iadd, nested=False) if last_attr(c) == 'add_determinant']
+    ctx.ob(rule, 'determinants:summed-via-add_determinant',
+           len(calls) == 1 and norm(calls[0].func.value) == 'self',
+           '__iadd__ merges every determinant of the other group through add_determinant',
+           mod, calls[0] if calls else iadd)
+    dv = [n for n in walk_no_nested(tdiv) if isinstance(n, ast.AugAssign)
+          and isinstance(n.op, ast.Div) and norm(n.target).endswith('.value')]
+    ctx.ob(rule, 'determinants:values-divided', len(dv) == 1 and norm(dv[0].value) == val,
+           '__truediv__ divides every determinant value by the divisor', mod, dv[0] if dv else tdiv)
+    # add_determinant: add to the entry of the same partner, else append a copy
+    addd = mod.func('Group.add_determinant')
+    aug = [n for n in walk_no_nested(addd) if isinstance(n, ast.AugAssign)
+           and isinstance(n.op, ast.Add) and norm(n.target).endswith('.value')]
+    app = [c for c in calls_in(addd, nested=False) if last_attr(c) == 'append']
+    ok = len(aug) == 1 and len(app) == 1 and 'Determinant(' in norm(app[0].args[0]) \
+        and norm(aug[0].value).endswith('.value')
+    ctx.ob(rule, 'add_determinant:add-or-append-copy', ok,
+           'add_determinant adds to the determinant of the same partner or appends a fresh copy '
+           '(never aliases the source determinant)', mod, addd)
+    # clone
+    copied = {}
+    res_var = None
+    for node in clone.body:
+        if isinstance(node, ast.Assign) and isinstance(node.value, ast.Call) \
+                and call_name(node.value) == 'Group':
+            res_var = norm(node.targets[0])
+    for node in walk_no_nested(clone):
+        if isinstance(node, ast.Assign) and isinstance(node.targets[0], ast.Attribute) \
+                and norm(node.targets[0].value) == res_var:
+            copied[node.targets[0].attr] = norm(node.value)
+    ctx.ob(rule, 'clone:fresh-group', res_var is not None,
+           'clone builds a fresh Group (zero accumulators, empty determinant lists)', mod, clone)
+    ctx.ob(rule, 'clone:copies-model_pka', copied.get('model_pka') == 'self.model_pka',
+           'clone copies model_pka', mod, clone)
+    leaked = sorted(set(copied) & (set(summed) | {'determinants'}))
+    ctx.ob(rule, 'clone:accumulators-start-at-zero', not leaked,
+           'clone does not pre-load any accumulated field (pre-loaded: %s)' % leaked, mod, clone)
+    for fld in ('titratable', 'exclude_cys_from_results', 'residue_type', 'type', 'charge'):
+        ctx.ob(rule, 'clone:copies-' + fld, copied.get(fld) == 'self.' + fld,
+               'clone copies %s (the report filter / write-out section depend on it)' % fld,
+               mod, clone)
+    # initial zeros in __init__
+    zeros = {}
+    for node in walk_no_nested(init):
+        if isinstance(node, ast.Assign) and isinstance(node.targets[0], ast.Attribute) \
+                and norm(node.targets[0].value) == 'self':
+            from sa.astutil import try_fold
+            zeros[node.targets[0].attr] = try_fold(node.value)
+    bad = sorted(f for f in summed if zeros.get(f) != 0)
+    ctx.ob(rule, 'init:accumulators-zero', not bad,
+           'every accumulated field starts at 0 in Group.__init__ (not zero: %s)' % bad, mod, init)
